@@ -27,12 +27,21 @@ def _class(f, v, prefix):
     """Effect class of handler f on critic type v."""
     blocks = edpe_blocks(f, tok_dkey(f), v)
     calls = []
+    def norm(c):
+        return "<mode>_" + c[len(prefix):] if c.startswith(prefix) else c
+    prog = getattr(f.unit, "prog", None)
     for n in block_nodes(f, blocks):
         if n["k"] == "CallExpr" and n.get("callee"):
             c = n["callee"]
-            if c.startswith(prefix):
-                c = "<mode>_" + c[len(prefix):]
-            calls.append(c)
+            calls.append(norm(c))
+            # a mode-neutral static helper of this unit (one level): what it calls counts as called here, so a helper shared
+            # by the accept and the reject side cannot hide a call into the wrong side
+            if prog is not None and not c.startswith(("accept_", "reject_")):
+                h = f.unit.funcs.get(c)
+                if h is not None and h is not f:
+                    for hc in h.calls():
+                        if hc.get("callee"):
+                            calls.append(norm(hc["callee"]))
     # is the exit reachable (still deciding every branch on the type) without executing any call?
     # (conditional effect, e.g. "only if mated")
     cfg = f.cfg
